@@ -97,6 +97,7 @@ MODES = {
     "all": ("control", "ehook", "thook", "recorder", "tracing"),
 }
 MODE_ORDER = ["nothing", "control", "ehook", "thook", "recorder", "tracing", "all"]
+INSTRUMENTED = {"control", "ehook", "thook", "recorder", "all"}  # always take the instrumented loop
 # modes a script can run under (a script needs the control surface; it is added on top)
 SCRIPT_MODES = ["control", "ehook", "thook", "recorder", "tracing", "all"]
 
@@ -149,6 +150,7 @@ class Scripted4(Scripted):
         return super().handle_event(event)
 
 
+HEAP_EXACT_BEH = {"nop", "emit", "gen", "genside", "emitrev"}
 STATELESS_BEH = {"nop", "emit", "gen", "genside", "past", "past2", "emitrev"}
 
 
@@ -166,6 +168,7 @@ class ProgModel:
         self.key = ("prog", program, end_ns)
         self.spec = ("prog", program, end_ns)
         behs_ok = all(b[0] in STATELESS_BEH for (_t, _ti, _k, b) in program)
+        self.heap_exact = all(k in ("plain", "daemon") and b[0] in HEAP_EXACT_BEH for (_t, _ti, k, b) in program)
         self.stateless = behs_ok and all(k in ("plain", "daemon") for (_t, _ti, k, _b) in program)
         # stateless entities, but some pre-run event was cancelled before run(): kept apart (own shape class)
         self.precancelled = behs_ok and not self.stateless
@@ -280,6 +283,7 @@ class PipeModel:
     metric_bp = ("Sink", "events_received", "ge", 2)
     stateless = False
     precancelled = False
+    heap_exact = True
     params = {"A": {"H": 3, "BT": 625_000_000, "BC": 7, "BE": "Request", "I": 0},
               "B": {"H": 1, "BT": 1_000_000_000, "BC": 12, "BE": "QUEUE_POLL", "I": 1}}
 
@@ -427,6 +431,7 @@ class GenFutModel:
     metric_bp = ("K", "count", "ge", 1)
     stateless = False
     precancelled = False
+    heap_exact = True
     params = {"A": {"H": 2, "BT": 3 * GTICK, "BC": 4, "BE": "req", "I": 0},
               "B": {"H": 1, "BT": 5 * GTICK, "BC": 7, "BE": "timeout", "I": 2}}
 
@@ -927,13 +932,14 @@ def judge(model, mode, script, ex, cache=CACHE):
                 nontrivial = True
             # -- delivery log prefix produced so far equals the uninterrupted run's prefix
             if log[lastn:nlog] != rlog[lastn:nlog] or q > N:
-                shape = ("after-" + opn + ("+paused-schedule" if injected else "")) if si == 0 else rshape
+                shape = rshape if si > 0 else ("paused-schedule" if injected else "after-" + opn)
                 out.append((f"SimulationControl/{clause}/delivery-log/{shape}/{fam}",
                             f"mode {mode}, script {script}: after {opn} (events_processed {p}->{q}) the harness log "
                             f"{log[lastn:nlog][:6]} differs from the uninterrupted run's {rlog[lastn:nlog][:6]}"))
                 diverged = True
                 break
             lastn = nlog
+            rv = []   # violations of this return that rely on the reference D
             # -- get_state() consistent with the log prefix
             if tot != q:
                 out.append((f"SimulationControl/get_state/events_processed-vs-summary/{fam}",
@@ -941,51 +947,66 @@ def judge(model, mode, script, ex, cache=CACHE):
             if phase == "paused":
                 Dq = D[q]
                 if cur != Dq[0]:
-                    out.append((f"SimulationControl/get_state/current_time/{fam}",
-                                f"script {script}: paused after {q} events at {cur}ns, delivery {q} happened at {Dq[0]}ns"))
+                    rv.append((f"SimulationControl/get_state/current_time/{fam}",
+                               f"script {script}: paused after {q} events at {cur}ns, delivery {q} happened at {Dq[0]}ns"))
                 if (lt, ltgt) != (Dq[1], Dq[2]):
-                    out.append((f"SimulationControl/get_state/last_event/{fam}",
-                                f"script {script}: paused after {q} events, last_event=({lt},{ltgt}) expected ({Dq[1]},{Dq[2]})"))
-                if heap != Dq[4]:
-                    out.append((f"SimulationControl/get_state/heap_size/{fam}",
-                                f"script {script}: paused after {q} events, heap_size={heap}, uninterrupted run had {Dq[4]} pending there"))
-                if prim != Dq[5]:
-                    out.append((f"SimulationControl/get_state/primary_events_remaining/{fam}",
-                                f"script {script}: paused after {q} events, primary_events_remaining={prim}, expected {Dq[5]}"))
+                    rv.append((f"SimulationControl/get_state/last_event/{fam}",
+                               f"script {script}: paused after {q} events, last_event=({lt},{ltgt}) expected ({Dq[1]},{Dq[2]})"))
+                if model.heap_exact:
+                    # only where nothing can leave the heap without being delivered (no cancellation,
+                    # no stale event): how lazily such entries are purged is not the statement's business
+                    if heap != Dq[4]:
+                        rv.append((f"SimulationControl/get_state/heap_size/{fam}",
+                                   f"script {script}: paused after {q} events, heap_size={heap}, uninterrupted run had {Dq[4]} pending there"))
+                    if prim != Dq[5]:
+                        rv.append((f"SimulationControl/get_state/primary_events_remaining/{fam}",
+                                   f"script {script}: paused after {q} events, primary_events_remaining={prim}, expected {Dq[5]}"))
                 if nlog != Dq[6]:
-                    out.append((f"SimulationControl/get_state/log-prefix/{fam}",
-                                f"script {script}: paused with events_processed={q} but {nlog} harness log entries "
-                                f"(uninterrupted run had {Dq[6]} at that count)"))
+                    rv.append((f"SimulationControl/get_state/log-prefix/{fam}",
+                               f"script {script}: paused with events_processed={q} but {nlog} harness log entries "
+                               f"(uninterrupted run had {Dq[6]} at that count)"))
             elif q != N:
-                out.append((f"SimulationControl/{clause}/events-processed/{('after-' + opn) if si == 0 else rshape}/{fam}",
-                            f"mode {mode}, script {script}: run completed after {q} events, uninterrupted run processed {N}"))
+                rv.append((f"SimulationControl/{clause}/events-processed/{('after-' + opn) if si == 0 else rshape}/{fam}",
+                           f"mode {mode}, script {script}: run completed after {q} events, uninterrupted run processed {N}"))
                 diverged = True
-                break
             # -- breakpoints: never pass the first satisfying delivery without pausing right after it
             hit_at_q = False
-            for (bop, _one) in armed:
-                for j in range(p + 1, q + 1):
-                    if bp_pred(model, bop, j, D[j]):
-                        if j < q:
-                            out.append((f"SimulationControl/breakpoint-late/{BP_NAME[bop[0]]}/{fam}",
-                                        f"mode {mode}, script {script}: {bop} first satisfied by delivery {j} "
-                                        f"{D[j][:3]} but {opn} ran on to events_processed={q}"))
-                        else:
-                            hit_at_q = True
-                        break
-            if q > p:
-                armed = [(bop, one) for (bop, one) in armed if not (one and bp_pred(model, bop, q, D[q]))]
+            if not diverged:
+                for (bop, _one) in armed:
+                    for j in range(p + 1, q + 1):
+                        if bp_pred(model, bop, j, D[j]):
+                            if j < q:
+                                rv.append((f"SimulationControl/breakpoint-late/{BP_NAME[bop[0]]}/{fam}",
+                                           f"mode {mode}, script {script}: {bop} first satisfied by delivery {j} "
+                                           f"{D[j][:3]} but {opn} ran on to events_processed={q}"))
+                            else:
+                                hit_at_q = True
+                            break
+                if q > p:
+                    armed = [(bop, one) for (bop, one) in armed if not (one and bp_pred(model, bop, q, D[q]))]
             # -- step(n)
-            if kind == "S":
+            if kind == "S" and not diverged:
                 adv = q - p
                 if adv > n:
                     out.append((f"SimulationControl/step-count/overrun/{fam}",
                                 f"mode {mode}, script {script}: step({n}) from {p} advanced events_processed to {q}"))
                 elif adv < n and phase == "paused":
                     if not hit_at_q and not any(p < f <= q for f in fires):
-                        out.append((f"SimulationControl/step-count/short/{fam}",
-                                    f"mode {mode}, script {script}: step({n}) from {p} paused at {q} with no "
-                                    f"breakpoint satisfied and no pause requested"))
+                        rv.append((f"SimulationControl/step-count/short/{fam}",
+                                   f"mode {mode}, script {script}: step({n}) from {p} paused at {q} with no "
+                                   f"breakpoint satisfied and no pause requested"))
+            if rv:
+                if injected or si > 0:
+                    # the reference itself depends on the paused schedule() / reset(): one clause, one fingerprint
+                    shape = rshape if si > 0 else "paused-schedule"
+                    out.append((f"SimulationControl/{clause}/public-state/{shape}/{fam}",
+                                f"mode {mode}, script {script}: after {opn} the run no longer matches the "
+                                f"uninterrupted run with the same events scheduled from a hook ({rv[0][1]})"))
+                    diverged = True
+                else:
+                    out.extend(rv)
+            if diverged:
+                break
         if diverged:
             break
         if not final:
@@ -1050,6 +1071,7 @@ def judge_modes(model, cache=CACHE):
         out.append((f"Simulation/horizon/nothing/{fam}", f"unobserved run of {model.spec} hit the horizon: {base.error}"))
         return out, 1
     res = {"nothing": base}
+    per = {}
     for mode in MODE_ORDER[1:]:
         r = res[mode] = cache.plain(model, mode)
         n += 1
@@ -1058,16 +1080,23 @@ def judge_modes(model, cache=CACHE):
             continue
         if r.obs != base.obs:
             what = "delivery-log" if r.obs[0] != base.obs[0] else "final-state"
-            out.append((f"Simulation/mode-divergence/{mode}/{what}/{fam}",
-                        f"model {model.spec}: run observed with '{mode}' differs from the unobserved run: "
-                        f"{_first_diff(r.obs, base.obs)}"))
+            per.setdefault(what, []).append((mode, f"model {model.spec}: run observed with '{mode}' differs from "
+                                                   f"the unobserved run: {_first_diff(r.obs, base.obs)}"))
         elif (r.total, r.duration) != (base.total, base.duration):
-            out.append((f"Simulation/mode-divergence/{mode}/summary-counters/{fam}",
-                        f"model {model.spec}: summary under '{mode}' events={r.total} duration={r.duration}, "
-                        f"unobserved events={base.total} duration={base.duration}"))
+            per.setdefault("summary-counters", []).append(
+                (mode, f"model {model.spec}: summary under '{mode}' events={r.total} duration={r.duration}, "
+                       f"unobserved events={base.total} duration={base.duration}"))
         elif r.cancelled != base.cancelled:
-            out.append((f"Simulation/mode-divergence/{mode}/events-cancelled/{fam}",
-                        f"model {model.spec}: events_cancelled under '{mode}' {r.cancelled}, unobserved {base.cancelled}"))
+            per.setdefault("events-cancelled", []).append(
+                (mode, f"model {model.spec}: events_cancelled under '{mode}' {r.cancelled}, unobserved {base.cancelled}"))
+    for what, lst in per.items():
+        if {m for m, _ in lst} >= INSTRUMENTED:
+            # every mode that selects the instrumented loop differs the same way: one root cause
+            out.append((f"Simulation/mode-divergence/instrumented-loop/{what}/{fam}",
+                        lst[0][1] + f" (same for {sorted(m for m, _ in lst)})"))
+        else:
+            for m, desc in lst:
+                out.append((f"Simulation/mode-divergence/{m}/{what}/{fam}", desc))
     e1, e2 = res["ehook"], res["all"]
     if e1.error is None and e2.error is None:
         if e1.elog != e2.elog:
@@ -1443,7 +1472,24 @@ def main(tier, seed, only=None):
             mode_driver(run, seed, name, specs, {"note": note}, nchunks=128)
         else:
             script_driver(run, seed, name, specs, modes, aid, L, split, {"note": note}, nchunks=256)
+    # re-run every violating case from its replay data before reporting it
+    for fp, (desc, rep) in list(run.violations.items()):
+        if not reproduces(rep, fp):
+            del run.violations[fp]
+            run.notes.append(f"DROPPED non-reproducible violation {fp}: {desc}")
+            print(f"[{PID}] WARNING: violation {fp} did not reproduce from its replay data; dropped (harness nondeterminism?)")
     return run.finish()
+
+
+def reproduces(rep, fp):
+    model = make_model(_thaw(rep["model"]))
+    cache = Cache()
+    if rep.get("modes"):
+        v, _n = judge_modes(model, cache)
+    else:
+        script = _thaw(rep["script"])
+        v, _nt, _ok = judge(model, rep["mode"], script, run_script(model, rep["mode"], script), cache)
+    return any(f == fp for f, _ in v)
 
 
 # ---------------------------------------------------------------------------
